@@ -106,6 +106,7 @@ var forkLog = os.Getenv("SYMGO_FORKLOG") != ""
 
 type Explorer struct {
 	forkSites map[string]int
+	expect    map[string]bool
 	m       *Machine
 	fn      *ssa.Function
 	work    [][]Decision
@@ -117,7 +118,7 @@ type Explorer struct {
 }
 
 func (m *Machine) NewExplorer(fn *ssa.Function) *Explorer {
-	x := &Explorer{m: m, fn: fn, viol: map[string]*Violation{}, assume: map[string]bool{}, bounds: map[string]string{}, forkSites: map[string]int{}}
+	x := &Explorer{m: m, fn: fn, viol: map[string]*Violation{}, assume: map[string]bool{}, bounds: map[string]string{}, forkSites: map[string]int{}, expect: map[string]bool{}}
 	x.R = &HarnessResult{Harness: fn.Name(), Reached: map[string]int{}, PanicKinds: map[string]int{}, Recovered: map[string]int{}}
 	return x
 }
@@ -170,6 +171,11 @@ func (x *Explorer) Run() *HarnessResult {
 	x.R.Queries = m.S.Queries - q0
 	x.R.SolverTime = (m.S.Time - t0).Seconds()
 	x.R.Wall = time.Since(start).Seconds()
+	for l := range x.expect {
+		if x.R.Reached[l] == 0 && !x.R.Truncated {
+			x.R.Inconclusive = appendUniq(x.R.Inconclusive, fmt.Sprintf("vacuous: expected label %q was never reached", l))
+		}
+	}
 	if m.S.Errors > e0 {
 		x.R.Inconclusive = appendUniq(x.R.Inconclusive, fmt.Sprintf("solver reported %d error lines", m.S.Errors-e0))
 	}
